@@ -33,6 +33,15 @@ def main(argv):
         seed = int(os.environ.get("VERIF_SEED", "0"))
     except ValueError:
         seed = 0
+    # global watchdog: a run that exceeds its budget is an infrastructure time-out (exit 2), never a verdict
+    import signal
+    budget = int(os.environ.get("VERIF_TIMEOUT_S", "1500" if tier == "quick" else "14400"))
+
+    def _timeout(signum, frame):
+        print("INFRA-ERROR: %s %s tier exceeded %d s" % (pid, tier, budget), flush=True)
+        os._exit(2)
+    signal.signal(signal.SIGALRM, _timeout)
+    signal.alarm(budget)
     try:
         return runner.run(load(pid), tier, seed)
     except Exception:
